@@ -129,4 +129,19 @@ Proof.
     intro k. unfold dadd, dscale. rewrite (lmean_invert (n0 :: nt) k). unfold dscale. qring.
 Qed.
 
+(* the same through type_from_annotation: with the printed expression as a parameter annotation the
+   checker reads back a dimension type with the meaning of the inferred one *)
+Theorem annotation_roundtrip l : Forall registered l ->
+  exists d, type_from_annotation r (ADim (print_dexpr l)) = Ok (TDim d) /\
+    forall th x, dd th (to_dtype l) x -> dd th d x.
+Proof.
+  intro HF. destruct (print_parse_roundtrip l HF) as [b [Hb Hm]].
+  cbn [type_from_annotation]. rewrite Hb. cbn [bind]. rewrite no_tparams.
+  assert (E : map (fun x : factor * Qc => match fst x with
+                                          | FBase n => if existsb (fun p : string * bool => String.eqb n (fst p)) [] then (FPar n, snd x) else x
+                                          | _ => x end) b = b).
+  { rewrite (map_ext _ (fun x => x)); [apply map_id|]. intros [f q]. destruct f; reflexivity. }
+  rewrite E. eexists. split; [reflexivity|]. intros th x Hx. apply dd_canon. apply Hm. exact Hx.
+Qed.
+
 End RoundTrip.
